@@ -47,6 +47,10 @@ type c16Result struct {
 	Carried       bool
 	CarryRet      error
 	CarryAppended string
+	// a failed Flush tried again before anything else is sent
+	FlushRetried    bool
+	FlushRetryRet   error
+	LogAtFlushRetry []mon.RWLog
 }
 
 const c16CarryEnc = "data: after-the-failure\n\n"
@@ -86,7 +90,14 @@ func c16RunSession(shape string, script []c16Op, failAt, accept int, preCT strin
 	defer func() {
 		res.Body, res.Log = core.Body.String(), append([]mon.RWLog(nil), core.Log...)
 		if n := len(res.Rets); n > 0 && res.Rets[n-1] != nil {
-			// the handler carries on after the failed call (the writer works again)
+			// the handler carries on after the failed call (the writer works again): when it was a Flush
+			// that failed, every other execution first tries that Flush again
+			if script[n-1].Kind == "flush" && failAt%2 == 0 {
+				res.FlushRetried = true
+				res.FlushRetryRet = sess.Flush()
+				res.LogAtFlushRetry = append([]mon.RWLog(nil), core.Log...)
+				res.Body = core.Body.String()
+			}
 			m := &sse.Message{}
 			m.AppendData("after-the-failure")
 			res.Carried = true
@@ -122,6 +133,20 @@ func c16Judge(shape string, script []c16Op, res c16Result, failAt int) (out []jv
 	log := res.Log
 	if res.Carried && res.CarryRet == nil && res.CarryAppended != c16CarryEnc {
 		out = append(out, jvf([]string{"send_after_failed_call_wrong"}, "after a failed call the next Send returned nil but appended %q to the body, want exactly its own encoding %q", fw.Trunc(res.CarryAppended, 200), c16CarryEnc))
+	}
+	if res.FlushRetried && res.FlushRetryRet == nil {
+		lw, lf := -1, -1
+		for i, l := range res.LogAtFlushRetry {
+			if l.Op == "write" {
+				lw = i
+			}
+			if l.Op == "flush" && !l.Err {
+				lf = i
+			}
+		}
+		if lw >= 0 && lf < lw {
+			out = append(out, jvf([]string{"flush_does_not_push", "flush_retried_after_failure"}, "a Flush failed, the next Flush returned nil, but the last write (log %d) is still not followed by a successful flush of the writer (last: %d)", lw, lf))
+		}
 	}
 	// (1) header set and flushed before the first body byte; no header access after a successful upgrade
 	firstWrite := -1
